@@ -83,4 +83,12 @@ PROPS = {
         ],
         "assumptions": ["label index entries agree with vertex labels (C03; known findings 1 and 3 of C03 are the exceptions)"],
     },
+    "C19": {
+        "trusted_base": [
+            "modelled, not verified: the finalisers of aggregate.Process (term / histogram / field / type / count) as functions of the list of field values; numbers are exact rationals (histogram arithmetic floor(min/i)*i, +i agrees with float64 on the generator's values)",
+            "tdigest (percentile) is external: C19_pct is conditional on two stated hypotheses about the quantile function (monotone in p, bounded by min/max); the correspondence checks exactly those two facts on the values the implementation returns",
+            "cast.ToFloat64E treats booleans as 1/0 and numeric text as numbers in histogram/percentile (modelled as the code does)",
+        ],
+        "assumptions": ["term buckets with equal frequency may be kept or dropped in any order by `size`"],
+    },
 }
